@@ -136,7 +136,7 @@ def serveJudge (f : List String) (out : String) : String :=
       | some r =>
         let v := verdict (c.cfg.templates && c.req.html) (effectiveErrors c.cfg) c.inner r
         if v != "ok" then v
-        else if fu != "ok" then "bad:not-contained:the server did not serve the next request correctly"
+        else if fu != "ok" then "bad:not-contained:the follow-up requests were not answered as a fresh instance of the site answers them"
         else "ok"
     | _, _, _ => "bad:unparsable:" ++ out
   | _, _ => "bad:unparsable:" ++ out
@@ -164,8 +164,8 @@ def liveJudge (f : List String) (out : String) : String :=
       | some r =>
         let v := verdict (c.cfg.templates && c.req.html) (effectiveErrors c.cfg) c.inner r
         if v != "ok" then v
-        else if f1 != "ok" then "bad:not-contained:the connection did not serve the next request"
-        else if f2 != "ok" then "bad:not-contained:the server did not serve a new connection"
+        else if f1 != "ok" then "bad:not-contained:follow-up on the same connection not answered as on a fresh instance of the site"
+        else if f2 != "ok" then "bad:not-contained:follow-up on a new connection not answered as on a fresh instance of the site"
         else "ok"
     | _, _ => "bad:unparsable:" ++ out
   | _, _ => "bad:unparsable:" ++ out
